@@ -1829,17 +1829,24 @@ class ArmV6:
         except UndefinedInstructionException:
             self.registers.take_undef_instr_exception()
 
+    def fetch_little_endian(self, address, size):
+        # instruction fetches are little-endian whatever CPSR.E (the data endianness) says
+        value = self.mem_a_get(address, size)
+        if self.registers.cpsr.e:
+            value = big_endian_reverse(value, size)
+        return value
+
     def fetch_instruction(self):
         if self.registers.current_instr_set() == InstrSet.ARM:
             self.opcode_len = 4
-            self.opcode = self.mem_a_get(self.registers.pc_store_value(), self.opcode_len)
+            self.opcode = self.fetch_little_endian(self.registers.pc_store_value(), self.opcode_len)
         elif self.registers.current_instr_set() == InstrSet.THUMB:
             self.opcode_len = 2
-            self.opcode = self.mem_a_get(self.registers.pc_store_value(), self.opcode_len)
+            self.opcode = self.fetch_little_endian(self.registers.pc_store_value(), self.opcode_len)
             opcode_start = substring(self.opcode, 15, 11)
             if opcode_start in (0b11101, 0b11110, 0b11111):
                 self.opcode_len += 2
-                new_part = self.mem_a_get(add(self.registers.pc_store_value(), 2, 32), 2)
+                new_part = self.fetch_little_endian(add(self.registers.pc_store_value(), 2, 32), 2)
                 self.opcode = chain(self.opcode, new_part, 16)
         self.opcode_len *= 8
         return self.opcode
